@@ -4,6 +4,8 @@ package c15
 
 import (
 	"fmt"
+	"go.uber.org/thriftrw/gen"
+	"path/filepath"
 	"reflect"
 	"strings"
 	"time"
@@ -28,7 +30,11 @@ var Check = &ev.Check{
 		"for a field that is neither, String() shows the field name, the zap JSON carries the field's key, and at least one pair of alphabet values yields different outputs. A case is (struct, field, value pair, nesting context); non-trivial = every case.",
 	Prepare: func(s *ev.S) error {
 		p, _ := extra()
-		_, err := cells.Prepare(s, cells.Options{Slim: true, Extra: p})
+		_, err := cells.Prepare(s, cells.Options{Slim: true, Extra: p, GenOptions: func(path string, o *gen.Options) {
+			if strings.HasPrefix(filepath.Base(path), "n") {
+				o.NoZap = true // the n*.thrift files are the copies generated without Zap
+			}
+		}})
 		return err
 	},
 	Run: run,
@@ -47,6 +53,7 @@ type target struct {
 	Context string
 	Inner   string // annotated struct's def name (in the same file)
 	Label   string // type expression label
+	NoZap   bool   // generated without Zap support
 }
 
 var annots = []struct{ name, text string }{{"Plain", ""}, {"Redacted", "go.redact"}, {"Nolog", "go.nolog"}, {"Both", "go.redact, go.nolog"}}
@@ -115,6 +122,31 @@ func extra() (*schema.Program, []target) {
 		cur.Defs = append(cur.Defs, &schema.Def{Kind: "union", Name: uname, Fields: fieldsFor(te.T, schema.Optional)})
 		ts = append(ts, target{File: cur.Path, Pkg: pkg(cur.Path), Def: uname, Kind: "union", Inner: uname, Label: te.Label})
 	}
+	// the files holding the representative structs and their wrappers, and every
+	// fourth other file, once more under the name n<k>.thrift: generated with NoZap
+	var clones []*schema.File
+	var cts []target
+	for i, f := range p.Files {
+		hasWrapper := false
+		for _, d := range f.Defs {
+			if strings.HasPrefix(d.Name, "W") {
+				hasWrapper = true
+			}
+		}
+		if !hasWrapper && i%4 != 0 {
+			continue
+		}
+		c := &schema.File{Path: "n" + strings.TrimPrefix(f.Path, "r"), Includes: f.Includes, Defs: f.Defs}
+		clones = append(clones, c)
+		for _, t := range ts {
+			if t.File == f.Path {
+				t.File, t.Pkg, t.NoZap = c.Path, pkg(c.Path), true
+				cts = append(cts, t)
+			}
+		}
+	}
+	p.Files = append(p.Files, clones...)
+	ts = append(ts, cts...)
 	return p, ts
 }
 
